@@ -1281,12 +1281,15 @@ class C10(Check):
         w.reset_modules()
         sub = {'route': 'main', 'argv': tokens}
         core, ctx = argv_context(tokens)
+        det_ctx = ctx
+        ctx = ctx.split('-')[0]          # alone / after / before / between
         if m.unspecified:
             R.unspec += 1
             R.out('main:unspecified')
             return
         R.nontrivial = bool(m.kinds) and not m.all
-        det = {'argv': ['prog'] + tokens, 'wrote': wrote, 'expected': want,
+        det = {'argv': ['prog'] + tokens, 'context': det_ctx, 'wrote': wrote,
+               'expected': want,
                'test_log': list(self.main_log), 'exit': exit_code,
                'exception': repr(exc)[:300] if exc else None,
                'stderr': sink.text()[-300:]}
